@@ -75,7 +75,9 @@ TStep ==
                 [] e.ev = "SetMode"     -> SetMode(e.c, e.id, e.res)
                 [] e.ev = "DeleteItem"  -> DeleteItem(e.c, e.id, e.res)
                 [] OTHER -> FALSE
-           /\ Snap
+           \* the ids of one batch request are separate events; only the last one (part = 0) carries
+           \* the snapshot taken after the request
+           /\ e.part = 1 \/ Snap
    /\ Adv
 
 TNext == TReset \/ TStep
